@@ -337,7 +337,9 @@ class PathTracer:
             z = o.z + thetas * height
             return np.column_stack((x, y, z))
 
-        total_length = self.estimate_length(500, helix_function)
+        # Sample every turn densely enough to estimate the length
+        samples = max(500, 100 * turns)
+        total_length = self.estimate_length(samples, helix_function)
         self.parametric(helix_function, total_length, **kwargs)
 
     @typechecked
